@@ -73,3 +73,23 @@ package mice
 //@   returns (proof, err)
 //@   ensures err == nil ==> len(proof) == 32 && proof != nil
 //@   assigns nothing
+
+// Encode: for every record size >= 1. Write failures surface; no slice or
+// allocation size goes out of range (the record arithmetic does not overflow).
+//@ func (Encoding).Encode
+//@   props C14 C19 C10
+//@   returns (digest, err)
+//@   requires w != nil && !failed(w) && recordSize >= 1
+//@   requires enc == Draft02Encoding || enc == Draft03Encoding
+//@   ensures[write-failure-surfaces] failed(w) ==> err != nil
+//@   ensures accepted(w) >= old(accepted(w)) && accepted(w) - wrapped(w) == old(accepted(w) - wrapped(w))
+//@   assigns accepted(w), failed(w), content(w), wrapped(w)
+//@   loop 0:
+//@     invariant 0 <= i && i <= numRecords && len(proofs) == numRecords && numRecords >= 1 && fresh(proofs)
+//@     invariant (numRecords - 1) * recordSize <= len(buf) && len(buf) <= numRecords * recordSize
+//@     invariant forall k int :: numRecords - i <= k && k < numRecords ==> len(proofs[k]) == 32
+//@     decreases numRecords - i
+//@   loop 1:
+//@     invariant !failed(w) && len(proofs) == numRecords && numRecords >= 1
+//@     invariant (numRecords - 1) * recordSize <= len(buf) && len(buf) <= numRecords * recordSize
+//@     invariant accepted(w) >= old(accepted(w)) && accepted(w) - wrapped(w) == old(accepted(w) - wrapped(w))
